@@ -164,7 +164,7 @@ func VerifC14Accessors() {
 	verifAssert("C14.acc.fu", fh.S() == (f>>7 == 1) && fh.E() == (f>>6&1 == 1) && fh.FuType() == f&0x3F)
 
 	// PACI: A | cType(6) | PHSsize(5) | F0 F1 F2 | Y, then PHES, then the payload
-	phs := verifCase("phssize", 0, verifBound("C14.maxphes"))
+	phs := verifPick("phssize", []int{0, 1, 2, 3, 4, 15, 16, 17, 31, 5, 6, 7, 8, 24}[:verifBound("C14.phskinds")])
 	pw := verifU16("paci-fields")&^(0x1F<<4) | uint16(phs)<<4
 	phes := verifBytes("phes", phs)
 	body := verifBytes("paci-body", verifCase("paci-bodylen", 1, 2))
